@@ -18,7 +18,7 @@ from pathlib import Path
 ROOT = Path(__file__).resolve().parent.parent
 LEAN = ROOT / 'lean'
 REPO = Path(os.environ.get('MISTLETOE_REPO', '/repo'))
-EVIDENCE = ROOT / 'evidence'
+EVIDENCE = Path(os.environ.get('VERIF_EVIDENCE_DIR') or (ROOT / 'evidence'))   # scratch runs on seeded changes write elsewhere
 REPLAYS = EVIDENCE / 'replays'
 DRIVER = LEAN / '.lake' / 'build' / 'bin' / 'driver'
 PY = sys.executable
@@ -308,9 +308,9 @@ def write_replay(prop_id, payload):
     path = REPLAYS / ('%s-%s.json' % (prop_id, stable_hash(payload)))
     payload = dict(payload)
     payload['property'] = prop_id
-    payload['replay_cmd'] = './check %s --replay %s' % (prop_id, path.relative_to(ROOT))
+    payload['replay_cmd'] = './check %s --replay %s' % (prop_id, path.relative_to(ROOT) if path.is_relative_to(ROOT) else path)
     path.write_text(json.dumps(payload, indent=1, ensure_ascii=False, default=str))
-    return path.relative_to(ROOT)
+    return path.relative_to(ROOT) if path.is_relative_to(ROOT) else path
 
 
 def run_check(mod, tier, seed):
